@@ -1010,6 +1010,35 @@ def gap_bounds(rng, n):
     return out
 
 
+def group_hours(rng, n):
+    """C15 (shift reference <-> inline hours), C02, C13: resource groups that declare working hours, inline or through a shift,
+    inherited by members that declare none; other members with hours / a shift of their own; hours unlike the project default."""
+    out = []
+    for i in range(n):
+        G = rng.choice([3600, 1800])
+        start = datetime(2025, 3, 3)
+        p = Proj(start=start, G=G, length="+4w")
+        people = []
+        for g in range(rng.randint(1, 2)):
+            gh = rng.choice([std_hours(420, 900), std_hours(720, 1200, range(6)), {d: [(420, 660), (720, 960)] for d in range(5)}, {d: [(1320, 360)] for d in range(5)}])
+            grp = p.add_res("g%d" % g, shift=p.add_shift("sh%d" % g, gh)) if rng.random() < 0.5 else p.add_res("g%d" % g, hours=gh)
+            sub = p.add_res("g%ds" % g, parent=grp) if rng.random() < 0.3 else grp
+            for k in range(rng.randint(1, 3)):
+                kind = rng.choice(["inherit", "inherit", "own", "ownshift"])
+                kw = {}
+                if kind == "own":
+                    kw["hours"] = std_hours(540, 1020)
+                elif kind == "ownshift":
+                    kw["shift"] = p.add_shift("own%d%d" % (g, k), std_hours(480, 960, range(6)))
+                people.append(p.add_res("m%d%d" % (g, k), parent=sub, **kw))
+        ts = []
+        for k in range(rng.randint(2, 5)):
+            ts.append(p.add_task("t%d" % k, effort=G * rng.randint(2, 30), alloc=[rng.choice(people)],
+                                 deps=[(rng.choice(ts), False, 0)] if ts and rng.random() < 0.5 else []))
+        out.append(("ghrs%04d" % i, p))
+    return out
+
+
 def teams_alts(rng, n):
     """C03: team allocations (same instants), alternatives (exactly one candidate set), sub-slot efforts."""
     out = []
